@@ -796,7 +796,7 @@ class Program:
                     out.append(c)
         return out
 
-    def impls_for_gargs(self, crate, gargs):
+    def impls_for_gargs(self, crate, gargs, callee=None):
         """Local trait-impl method bodies `<T as Trait>::m` whose Self type T is named in one of the generic args."""
         out = []
         if not gargs:
@@ -810,11 +810,29 @@ class Program:
                     if "::" in ty and not ty.startswith(("std::", "core::", "alloc::")):
                         idx.setdefault((b.crate, ty), []).append(b)
             self._impl_index = idx
+        last = (callee or "").rsplit("::", 1)[-1]
+        if last in ("new_display", "to_string") or (callee or "").endswith("fmt::Display::fmt"):
+            traits = ("std::fmt::Display",)
+        elif last in ("new_debug",):
+            traits = ("std::fmt::Debug",)
+        elif last in ("into", "from", "try_into", "try_from"):
+            traits = ("std::convert::From", "std::convert::Into", "std::convert::TryFrom")
+        elif last in ("parse", "from_str"):
+            traits = ("std::str::FromStr",)
+        else:
+            traits = ("std::iter::Iterator", "std::cmp::Ord", "std::cmp::PartialOrd", "std::cmp::PartialEq", "std::default::Default",
+                      "std::clone::Clone", "std::iter::Sum", "std::ops::Add", "std::ops::AddAssign", "std::ops::Sub", "std::ops::Mul",
+                      "std::ops::Div", "std::ops::Deref", "std::ops::DerefMut", "std::iter::FromIterator", "std::ops::Drop", "std::hash::Hash",
+                      "std::iter::IntoIterator", "std::iter::DoubleEndedIterator", "std::iter::ExactSizeIterator")
         for (ck, ty), bs in self._impl_index.items():
             if ck != crate:
                 continue
             if any(ty in g for g in gargs):
-                out.extend(bs)
+                for b in bs:
+                    tr = b.path[b.path.index(" as ") + 4:]
+                    tr = tr[:tr.rindex(">::")] if ">::" in tr else tr
+                    if tr.split("<")[0] in traits:
+                        out.append(b)
         return out
 
     def callee_closure(self, roots, crate="divan", stop=lambda name: False, include_closures=True, follow_generic_impls=False):
@@ -847,7 +865,14 @@ class Program:
                 else:
                     ext.setdefault(nm, c)
                     if follow_generic_impls:
-                        wl.extend(self.impls_for_gargs(b.crate, c.gargs))
+                        wl.extend(self.impls_for_gargs(b.crate, c.gargs, nm))
+                if follow_generic_impls:
+                    # local fn items passed by value (e.g. `.map(FineDuration::from)`)
+                    for a in c.args:
+                        if a["k"] == "const" and "fn" in a["c"]:
+                            fb = self.bodies.get((b.crate, norm(a["c"]["fn"]), -1))
+                            if fb is not None:
+                                wl.append(fb)
         return list(seen.values()), ext, indirect
 
 
